@@ -21,5 +21,6 @@ case "$id" in
   C01|C02|C07|C08|C09|C10) build build/search; exec ./build/search --prop "$id" --tier "$tier" --deadline "$DL" ;;
   C03|C04) build build/segmentation; exec ./build/segmentation --prop "$id" --tier "$tier" --deadline "$DL" ;;
   C05|C06|C15) build build/dynamic; exec ./build/dynamic --prop "$id" --tier "$tier" --deadline "$DL" ;;
+  C13|C14) build build/multidim; exec ./build/multidim --prop "$id" --tier "$tier" --deadline "$DL" ;;
   *) echo "unknown property $id"; exit 2 ;;
 esac
